@@ -79,7 +79,10 @@ func bookkeeping(c Case, r *result, u *vf.Unit) {
 		u.Class("dial:" + errKind(r.dialErr))
 	}
 	if r.forgeSkipped != "" {
-		u.Class("forge-skipped")
+		u.Class("forge-skipped:" + r.forgeSkipped)
+	}
+	if r.forgeAfterKeyUpdate {
+		u.Class("forge-after-key-update")
 	}
 	if r.forgeName != "" {
 		u.Class("forge:" + r.forgeName)
